@@ -1,4 +1,6 @@
 import Ysgo.Lemmas.F64Num
+import Ysgo.Lemmas.F64Conv
+import Ysgo.Lemmas.F64Places
 import Mathlib.Algebra.Order.Floor.Ring
 import Mathlib.Data.Rat.Floor
 /-!
@@ -50,6 +52,15 @@ theorem floor_eq_intFloor (x : F64) (h : Lt52 x) : val (Num.floor x) = (⌊val x
 example : Num.floor x2_5 = ⟨4611686018427387904⟩ := by decide      -- floor 2.5 = 2
 example : Num.floor xm3_75 = ⟨13839561654909534208⟩ := by decide   -- floor -3.75 = -4
 
+-- signed zero and the smallest subnormal
+set_option exponentiation.threshold 1100 in
+example : Num.floor (zero true) = zero true := by decide            -- floor -0 = -0
+set_option exponentiation.threshold 1100 in
+example : Num.floor xtiny = zero false := by decide                 -- floor 2^-1074 = 0
+set_option exponentiation.threshold 1100 in
+set_option maxRecDepth 2000 in
+example : Num.ceil xtiny = ⟨4607182418800017408⟩ := by decide       -- ceil 2^-1074 = 1
+
 /-- `ceil x` is an integer-valued double with `ceil x - 1 < x ≤ ceil x` -/
 theorem ceil_contract (x : F64) (h : Lt52 x) :
     Finite (Num.ceil x) ∧ IsInt (val (Num.ceil x))
@@ -86,6 +97,10 @@ example : Num.inc x2_5 = ⟨4613937818241073152⟩ := by decide        -- inc 2.
 example : Num.inc xm3_75 = ⟨13837309855095848960⟩ := by decide     -- inc -3.75 = -3
 example : Num.inc ⟨4613937818241073152⟩ = ⟨4616189618054758400⟩ := by decide   -- inc 3 = 4
 example : Num.inc xbig = ⟨4841369599423283200⟩ := by decide         -- inc (2^52 - 0.5) = 2^52
+
+set_option exponentiation.threshold 1100 in
+set_option maxRecDepth 2000 in
+example : Num.inc (zero true) = ⟨4607182418800017408⟩ := by decide  -- inc -0 = 1
 
 /-- `dec x`, computed as the floating-point difference `ceil x - 1`, is exact, and is the greatest integer less than `x` -/
 theorem dec_greatest_integer_below (x : F64) (h : Lt52 x) :
@@ -144,6 +159,10 @@ example : Num.decimal x2_5 = ⟨4602678819172646912⟩ := by decide       -- dec
 example : Num.decimal xm3_75 = ⟨13828302655841107968⟩ := by decide    -- decimal -3.75 = -0.75
 example : F64.add (Num.integer xm3_75) (Num.decimal xm3_75) = xm3_75 := by decide
 
+set_option exponentiation.threshold 1100 in
+set_option maxRecDepth 2000 in
+example : Num.decimal xtiny = xtiny := by decide                      -- decimal 2^-1074 = 2^-1074
+
 /-! ### C19.4 round -/
 
 /-- `round x` is an integer-valued double within 1/2 of `x` -/
@@ -157,6 +176,114 @@ theorem round_contract (x : F64) (h : Lt52 x) :
 example : Num.round x2_5 = ⟨4613937818241073152⟩ := by decide         -- round 2.5 = 3 (half away from zero)
 example : Num.round xm3_75 = ⟨13839561654909534208⟩ := by decide      -- round -3.75 = -4
 example : Num.round ⟨13836183955189006336⟩ = ⟨13837309855095848960⟩ := by decide  -- round -2.5 = -3
+
+/-! ### C19.5 round_places
+
+`round_places x n = math.Round(x * math.Pow10(n)) / math.Pow10(n)`. The literal "within half a unit of the n-th decimal
+place" cannot hold for any function returning doubles (see the example with 0.125 below); the theorem has the explicit
+representation slack `2^-51 · max(|x|, 10^-n)` of DESIGN §5 C19.5, which accounts for the one rounded multiplication
+and the one rounded division (each of relative error ≤ 2^-53). -/
+
+/-- `|round_places x n − x| ≤ ½·10⁻ⁿ + 2⁻⁵¹·max(|x|, 10⁻ⁿ)` for `|x| < 2^52`, `0 ≤ n ≤ 8` -/
+theorem round_places_contract (x : F64) (h : Lt52 x) (n : ℕ) (hn : n ≤ 8) :
+    Finite (Num.roundPlaces x (n : ℤ)) ∧
+      |val (Num.roundPlaces x (n : ℤ)) - val x|
+        ≤ (1 / 2) * (1 / (10 : ℚ) ^ n) + (1 / 2 ^ 51) * max |val x| (1 / (10 : ℚ) ^ n) := by
+  obtain ⟨hf, he⟩ := Num.roundPlaces_spec h n hn
+  refine ⟨hf, le_trans he (le_of_eq ?_)⟩
+  have h1 : (4 : ℚ) * 2 ^ (-53 : ℤ) = 1 / 2 ^ 51 := by norm_num
+  rw [h1]
+  have hT0 : (0 : ℚ) < (10 : ℚ) ^ n := by positivity
+  field_simp
+
+/-- the same with the number of places as the integer argument the built-in receives -/
+theorem round_places_contract_int (x : F64) (h : Lt52 x) (places : ℤ) (h0 : 0 ≤ places) (h8 : places ≤ 8) :
+    Finite (Num.roundPlaces x places) ∧
+      |val (Num.roundPlaces x places) - val x|
+        ≤ (1 / 2) * (1 / (10 : ℚ) ^ places.toNat) + (1 / 2 ^ 51) * max |val x| (1 / (10 : ℚ) ^ places.toNat) := by
+  have := round_places_contract x h places.toNat (by omega)
+  rwa [Int.toNat_of_nonneg h0] at this
+
+/-- 0.125 -/ def x0_125 : F64 := ⟨4593671619917905920⟩
+/-- the double nearest to 0.13 -/ def x0_13 : F64 := ⟨4593851763903000740⟩
+example : Lt52 x0_125 := by decide
+example : Num.roundPlaces x0_125 2 = x0_13 := by decide                 -- round_places(0.125, 2) = 0.13
+example : Num.roundPlaces xm3_75 1 = ⟨13839111294946797158⟩ := by decide  -- round_places(-3.75, 1) = -3.8
+example : Num.roundPlaces x2_5 0 = ⟨4613937818241073152⟩ := by decide     -- round_places(2.5, 0) = 3
+example : Num.roundPlaces ⟨4653144502051863213⟩ 2 = ⟨4653144511727565537⟩ := by decide  -- 1234.5678 ↦ 1234.57
+/-- why the slack is needed: the correctly rounded answer 0.13 is a double at distance > 0.005 from 0.125, so
+"within half a unit of the 2nd decimal place" fails for the best possible result -/
+example : val x0_13 - val x0_125 > (1 / 2) * (1 / (10 : ℚ) ^ 2) := by
+  have h1 : decode x0_13 = .fin false 4683743612465316 (-55) := by decide
+  have h2 : decode x0_125 = .fin false 4503599627370496 (-55) := by decide
+  rw [val_of_decode h1, val_of_decode h2]; norm_num [fval, sgn]
+
+/-! ### C19.6 conversions: `number (string x) == x`, `bool (string b) = b`
+
+`string x` is `display x` (`Value.ToString`), `number s` is `parseFloat s` (`strconv.ParseFloat`), `bool s` is
+`Num.parseBool s` (`strconv.ParseBool`). The clauses "string/number/bool of a value already of that type is the
+identity" are about the built-in dispatcher and live with its model. -/
+
+/-- integral branch, fully proved: an integer-valued `x` is displayed by `Itoa` and parses back to a double that is
+numerically equal to `x` (it is `x` itself except that `-0` comes back as `+0`) -/
+theorem number_string_roundtrip_integral (x : F64) (h : Lt52 x) (hint : IsInt (val x)) :
+    ∃ y, parseFloat (display x) = .val y ∧ Finite y ∧ val y = val x ∧ F64.eq y x = true := by
+  obtain ⟨hdisp, hf, hv⟩ := display_of_isInt h hint
+  obtain ⟨hs, -, -⟩ := toInt64_spec h
+  refine ⟨ofInt (toInt64 x), ?_, hf, hv, (eq_iff_val hf h.finite).mpr hv⟩
+  rw [hdisp]
+  exact parseFloat_itoa _ (by unfold P52 P53 at *; omega)
+
+/-- the underlying fact: printing an integer below 2^53 in decimal and parsing it back gives its double -/
+theorem parseFloat_itoa_ofInt (i : ℤ) (h : i.natAbs < P53) :
+    parseFloat (itoa i) = .val (ofInt i) ∧ Finite (ofInt i) ∧ val (ofInt i) = (i : ℚ) :=
+  ⟨parseFloat_itoa i h, ofInt_val i h⟩
+
+/-- non-integral branch: `display x` is `fmt.Sprint x`; the round trip of Go's shortest formatting through
+`strconv.ParseFloat` is the explicit premise `strconv_roundtrip` (a hypothesis, not an axiom; it is what the
+`numeric` stream samples) -/
+theorem number_string_roundtrip_nonintegral (x : F64) (h : Lt52 x) (hnint : ¬ IsInt (val x))
+    (strconv_roundtrip : parseFloat (fmtG x) = .val x) :
+    parseFloat (display x) = .val x := by
+  rw [display_of_not_isInt h hnint]; exact strconv_roundtrip
+
+/-- both branches: `number (string x) == x` for every `|x| < 2^52`, the premise being needed only for non-integers -/
+theorem number_string_roundtrip (x : F64) (h : Lt52 x)
+    (strconv_roundtrip : ¬ IsInt (val x) → parseFloat (fmtG x) = .val x) :
+    ∃ y, parseFloat (display x) = .val y ∧ Finite y ∧ val y = val x ∧ F64.eq y x = true := by
+  by_cases hint : IsInt (val x)
+  · exact number_string_roundtrip_integral x h hint
+  · exact ⟨x, number_string_roundtrip_nonintegral x h hint (strconv_roundtrip hint), h.finite, rfl,
+      (eq_iff_val h.finite h.finite).mpr rfl⟩
+
+/-- 3.0 -/ def x3 : F64 := ⟨4613937818241073152⟩
+example : Lt52 x3 ∧ IsInt (val x3) := by
+  refine ⟨by decide, 3, ?_⟩
+  have h : decode x3 = .fin false 6755399441055744 (-51) := by decide
+  rw [val_of_decode h]; norm_num [fval, sgn]
+example : ¬ IsInt (val x2_5) := by
+  have h : decode x2_5 = .fin false 5629499534213120 (-51) := by decide
+  rw [val_of_decode h]
+  rintro ⟨z, hz⟩
+  have h2 : (2 * z : ℤ) = 5 := by
+    have : (2 : ℚ) * z = 5 := by rw [← hz]; norm_num [fval, sgn]
+    exact_mod_cast this
+  omega
+example : display x3 = "3" ∧ (parseFloat "3").val? = some x3 := by decide
+example : display ⟨13837309855095848960⟩ = "-3" ∧ (parseFloat "-3").val? = some ⟨13837309855095848960⟩ := by decide
+-- -0 is displayed as "0" and comes back as +0, which is `==` to -0
+set_option exponentiation.threshold 1100 in
+example : display (zero true) = "0" ∧ (parseFloat "0").val? = some (zero false)
+    ∧ F64.eq (zero false) (zero true) = true := by decide
+
+/-- `bool (string b) = b`: `Value.ToString` writes booleans as `True` / `False` -/
+theorem parseBool_display (b : Bool) : Num.parseBool (if b then "True" else "False") = some b := by
+  cases b <;> decide
+
+/-- a string that is neither a number nor a boolean is an error (samples of the modelled parsers) -/
+example : Num.parseBool "yes" = none ∧ Num.parseBool "TrUe" = none ∧ Num.parseBool "" = none := by decide
+example : (parseFloat "abc").val? = none ∧ (parseFloat "").val? = none ∧ (parseFloat "1.5x").val? = none := by
+  decide
 
 end C19
 end Ysgo
